@@ -23,6 +23,8 @@ def gen(t):
         V = 'Vec%d<%s>' % (n, E)
         tu.add('w_length%d' % n, '%s& o, const %s& v' % (E, V), 'o = v.length();', n=n, kind='length')
         tu.add('w_length2_%d' % n, '%s& o, const %s& v' % (E, V), 'o = v.length2();', n=n, kind='length2')
+        tu.add('w_dot%d' % n, '%s& o, const %s& v' % (E, V), 'o = v.dot(v);', n=n, kind='aux')
+        tu.add('w_dotop%d' % n, '%s& o, const %s& v' % (E, V), 'o = v ^ v;', n=n, kind='aux')
         tu.add('w_normalize%d' % n, '%s& v' % V, 'v.normalize();', n=n, kind='norm', base='a0', sentinel='same')
         tu.add('w_normalizeExc%d' % n, '%s& v' % V, 'v.normalizeExc();', n=n, kind='norm', base='a0', sentinel='throw')
         tu.add('w_normalizeNonNull%d' % n, '%s& v' % V, 'v.normalizeNonNull();', n=n, kind='norm', base='a0', sentinel=None)
@@ -151,6 +153,7 @@ def main(rep, ws, tier):
             if S is None:
                 rep.ob(oid, 'R08.len', UNDECIDED, R.err.get(name, '')); continue
             where = fn_where(S.fn); n = m['n']
+            if m['kind'] == 'aux': continue
             if m['kind'] == 'length':
                 L = S.out('a0', 0, sz, lt)
                 err, parts = analyse_length(L, 'a1', n, t)
@@ -168,7 +171,18 @@ def main(rep, ws, tier):
                     ok = ctx.requal(ctx.rat(L2), (want, P.pconst(1)))
                 except P.NotPoly:
                     ok = False
-                rep.ob(oid, 'R08.len', HOLDS if ok else VIOLATED, '' if ok else 'length2() = %s' % T.show(L2, 4), where)
+                # ... and it is the dot product term for term: the same value in floating point, not only over the reals
+                # (a regrouped sum differs from dot(v, v) in the last place)
+                exact = None
+                if ok:
+                    for w_ in ('w_dot%d' % n, 'w_dotop%d' % n):
+                        Sd = R.get(w_)
+                        if Sd is None: continue
+                        D_ = Sd.out('a0', 0, sz, lt)
+                        if not (D_ is L2 or T.equiv(D_, L2, 20000)):
+                            exact = 'length2() = %s is the dot product over the reals but not the value of %s = %s in floating point (the additions are grouped differently)' % (T.show(L2, 5)[:160], 'v.dot(v)' if w_.startswith('w_dot%d' % n) and not w_.startswith('w_dotop') else 'v ^ v', T.show(D_, 5)[:160])
+                            break
+                rep.ob(oid, 'R08.len', HOLDS if (ok and not exact) else VIOLATED, '' if (ok and not exact) else (exact or 'length2() = %s' % T.show(L2, 4)), where)
         for name, m in tu.meta.items():
             if m['kind'] != 'norm': continue
             oid = '%s<%s>' % (name[2:], E)
